@@ -32,8 +32,8 @@ PROFILES = {
     "two_handles": dict(w=dict(construct=25, set_leaf=30, set_compound=10, bind=5, copy=6, drop=15, raw=4, grow=8, misuse=0, restart=0, json=0, kill=4)),
     "assign": dict(w=dict(construct=15, set_leaf=45, set_compound=18, bind=3, copy=2, drop=4, raw=3, grow=10, misuse=0, restart=0, json=0)),
     "misuse": dict(w=dict(construct=25, set_leaf=12, set_compound=5, bind=3, copy=3, drop=3, raw=6, grow=5, misuse=38, restart=0, json=0), force_p=dict(strings=0.9, dyn_items=0.8, urefs=0.6, dyn_struct=0.9)),
-    "refs": dict(w=dict(construct=25, set_leaf=20, set_compound=2, bind=25, copy=5, drop=4, raw=4, grow=15, misuse=0, restart=0, json=0), force=dict(refs=True, urefs=True)),
-    "copies": dict(w=dict(construct=25, set_leaf=22, set_compound=5, bind=8, copy=25, drop=6, raw=4, grow=8, misuse=0, restart=0, json=0, kill=7)),
+    "refs": dict(w=dict(construct=25, set_leaf=20, set_compound=2, bind=25, copy=5, drop=4, raw=4, grow=15, misuse=0, restart=0, json=0), force=dict(refs=True, urefs=True), force_p=dict(ref_chain=0.6)),
+    "copies": dict(w=dict(construct=25, set_leaf=22, set_compound=5, bind=8, copy=25, drop=6, raw=4, grow=8, misuse=0, restart=0, json=0, kill=7), force_p=dict(ref_chain=0.4)),
     "restart": dict(w=dict(construct=25, set_leaf=20, set_compound=5, bind=6, copy=4, drop=3, raw=4, grow=8, misuse=0, restart=25, json=0)),
     "json": dict(w=dict(construct=35, set_leaf=20, set_compound=5, bind=0, copy=3, drop=2, raw=4, grow=5, misuse=0, restart=0, json=26), force=dict(refs=False, urefs=False)),
 }
@@ -82,6 +82,7 @@ def gen_world(rng, profile, tier):
         "nd_input": rng.random() < 0.7,
         "dims_form": rng.random() < 0.6,
         "cyc3": rng.random() < 0.2,
+        "ref_chain": rng.random() < 0.15,
         "zero_static": rng.random() < 0.25,
         "np_dims": rng.random() < 0.15,
         "kill": rng.random() < 0.5,
@@ -492,7 +493,9 @@ class GenSource:
             if r < 0.5 and same:
                 target = {"obj": rng.choice(same).k}
             elif r < 0.65 and other:
-                target = {"obj": rng.choice(other).k}
+                # a referent in another buffer has to be duplicated, deeply when it holds references itself
+                deep = [x for x in other if typegen.has_refs(w.schema, tt)]
+                target = {"obj": rng.choice(deep or other).k}
             elif r < 0.72 and ty["k"] == "ref":
                 # a nested part of an object in the same buffer
                 for x in w.live_objs(buf=o.buf):
@@ -1029,6 +1032,9 @@ class Step:
         self.res.probe("bind_" + kindb)
         if mat.foreign:
             self.res.fault("foreign_operand", mat.foreign)
+            tt0 = w.schema[t]["to"] if w.schema[t]["k"] == "ref" else None
+            if tt0 is not None and typegen.has_refs(w.schema, tt0):
+                self.res.probe("bind_foreign_referent_that_holds_references")
         try:
             holder = o.walk(path[:-1], start)
             last = path[-1]
